@@ -236,6 +236,18 @@ func c16Invalidations() []invDev {
 			})
 		}
 	}
+	// JWS: names that differ from a specification header only by letter case (incl. U+017F, which JSON decoders fold to "s"): the
+	// reader would take them for the header itself
+	for _, lk := range []struct {
+		n string
+		v any
+	}{{"io.cncf.notary.signingtime", future.Format(time.RFC3339)}, {"IO.CNCF.NOTARY.SIGNINGTIME", future.Format(time.RFC3339)}, {"io.cncf.notary.signingscheme", envenc.SchemeX509},
+		{"io.cncf.notary.authenticsigningtime", future.Format(time.RFC3339)}, {"io.cncf.notary.ſigningTime", future.Format(time.RFC3339)}, {"io.cncf.notary.Expiry", future.Format(time.RFC3339)}, {"Cty", "text/plain"}, {"CRIT", []string{envenc.HdrScheme}}} {
+		lk := lk
+		post(fmt.Sprintf("jws-ext-key-look-alike=%q", lk.n), "ext", "jws", "", func(r *reqSpec, req *signature.SignRequest, rs *envenc.RemoteSigner) {
+			req.ExtendedSignedAttributes = []signature.Attribute{attr(lk.n, false, lk.v)}
+		})
+	}
 	for _, h := range []struct {
 		n string
 		k any
